@@ -244,14 +244,14 @@ def check_pair(ctx, pair, obs_by_chunk, cases_out=None):
         i, j = map(int, np.argwhere(extra)[0])
         ctx.add_failure("C09.position.outside_valued",
                         "%s: target pixel (%d,%d) lies at source row/col (%.6f, %.6f) outside the grid of centres but gets index (%r, %r)"
-                        % (pair["tag"], i, j, L[i, j], P[i, j], iy[i, j], ix[i, j]), dict(rp, chunk=BIG_CHUNK, pixel=[i, j]))
+                        % (pair["tag"], i, j, L[i, j], P[i, j], float(iy[i, j]), float(ix[i, j])), dict(rp, chunk=BIG_CHUNK, pixel=[i, j]))
     both = inside & val
     err = np.where(both, np.maximum(np.abs(iy - L), np.abs(ix - P)), 0.0)
     if (err > POS_TOL).any():
         i, j = map(int, np.unravel_index(np.argmax(err), err.shape))
         ctx.add_failure("C09.position.inexact",
                         "%s: target pixel (%d,%d): gradient search index (row %r, col %r) differs from the exact position (%.9f, %.9f) by %.3g px"
-                        % (pair["tag"], i, j, iy[i, j], ix[i, j], L[i, j], P[i, j], err[i, j]), dict(rp, chunk=BIG_CHUNK, pixel=[i, j]))
+                        % (pair["tag"], i, j, float(iy[i, j]), float(ix[i, j]), L[i, j], P[i, j], err[i, j]), dict(rp, chunk=BIG_CHUNK, pixel=[i, j]))
     # ---- values of the single-chunk run, then every other chunking against it
     tie = near_tie(L, P)
     for k, run in enumerate(RUNS):
@@ -277,7 +277,7 @@ def check_pair(ctx, pair, obs_by_chunk, cases_out=None):
                 i, j = map(int, np.argwhere(bad | nanpat)[0])
                 key = "C09.nn_value" if run["method"] == "nn" else "C09.bilinear_value"
                 ctx.add_failure(key, "%s run %s band %d: target pixel (%d,%d) at source (%.6f, %.6f) has value %r, required %r (+-%.3g)"
-                                % (pair["tag"], run, b, i, j, L[i, j], P[i, j], vb[i, j], exp[i, j], tol),
+                                % (pair["tag"], run, b, i, j, L[i, j], P[i, j], float(vb[i, j]), float(exp[i, j]), tol),
                                 dict(rp, chunk=BIG_CHUNK, run=run, pixel=[i, j]))
     for chunk, ob in sorted(obs_by_chunk.items()):
         if chunk == BIG_CHUNK:
@@ -378,7 +378,7 @@ def gen_direct(ctx):
     r = ctx.rng
     cases = []
     for k in range(ctx.n(40, 400)):
-        mode = k % 8
+        mode = k % 9
         nl, np_ = r.randint(1, 7), r.randint(1, 7)
         if mode == 7:
             nl, np_ = r.choice([(1, 1), (1, 5), (4, 1), (2, 2)])
@@ -386,6 +386,11 @@ def gen_direct(ctx):
         a, b, c, e = [r.randint(-6, 6) / 2.0 for _ in range(4)]
         if mode in (0, 1, 2, 7) and c * b - e * a == 0:
             a, b, c, e = 0.0, 1.5, -2.0, 0.5
+        if mode == 8:           # dyadic coefficients, determinant a power of two: every operation of the search is exact
+            a, b, c, e = 0.0, r.choice([-4.0, -0.5, 1.0, 2.0]), r.choice([-2.0, -1.0, 0.25, 8.0]), r.choice([0.0, 0.0, 0.5, -1.5])
+            if r.random() < 0.5:
+                a, b, c, e = b, e, a if a else 0.0, c
+                a, b, c, e = (a, b, c, e) if c * b - e * a != 0 else (0.0, 2.0, -1.0, 0.0)
         x0, y0 = r.randint(-20, 20) / 4.0, r.randint(-20, 20) / 4.0
         sx = [[x0 + a * l + b * p for p in range(np_)] for l in range(nl)]
         sy = [[y0 + c * l + e * p for p in range(np_)] for l in range(nl)]
@@ -419,8 +424,13 @@ def gen_direct(ctx):
                 L, P = float(r.randint(-1, nl)), float(r.randint(-1, np_))
             elif q < 0.25:
                 L, P = r.randint(-2, 2 * nl) / 2.0, r.randint(-2, 2 * np_) / 2.0
+            if mode == 8:       # positions on the 1/8 lattice, many of them on the hull border and on ties
+                L, P = r.randint(-8, 8 * nl) / 8.0, r.randint(-8, 8 * np_) / 8.0
+                if q < 0.5:
+                    L = r.choice([0.0, float(nl - 1), L, round(L), nl - 0.5, -0.125])
+                    P = r.choice([0.0, float(np_ - 1), P, round(P), np_ - 1 + 0.125])
             tx, ty = x0 + a * L + b * P, y0 + c * L + e * P
-            q = r.random()
+            q = r.random() if mode != 8 else 1.0
             if q < 0.03:
                 tx = r.choice([float("inf"), float("-inf")])
             elif q < 0.05:
@@ -435,7 +445,7 @@ def gen_direct(ctx):
             dy.append(ty)
         fl = lambda m: [v for row in m for v in row]  # noqa: E731
         cases.append({"nl": nl, "np": np_, "H": H, "W": W, "sx": fl(sx), "sy": fl(sy), "xl": fl(xl), "xp": fl(xp), "yl": fl(yl),
-                      "yp": fl(yp), "dx": dx, "dy": dy, "data": [r.randint(-4000, 4000) / 16.0 for _ in range(nl * np_)], "mode": mode})
+                      "yp": fl(yp), "dx": dx, "dy": dy, "data": [r.randint(-4000, 4000) / 16.0 for _ in range(nl * np_)], "mode": mode, "exact": mode == 8})
     return cases
 
 
@@ -509,7 +519,7 @@ def interp_oracle(ctx, c, o):
             if not ok.all():
                 i, j = map(int, np.argwhere(~ok)[0])
                 ctx.add_failure("C09.interp." + name, "block %s interpolator: block-relative index (row %r, col %r) on a %dx%d block gives %r"
-                                % (name, y0[i, j], x0[i, j], c["nl"], c["np"], vb[i, j]), {"oracle": "interp", "case": c})
+                                % (name, float(y0[i, j]), float(x0[i, j]), c["nl"], c["np"], float(vb[i, j])), {"oracle": "interp", "case": c})
                 return
 
 
@@ -704,7 +714,7 @@ def source_vs_binary(ctx, c, o):
 
 def direct_oracle(ctx, c, o, label="", oracle="direct"):
     """affine synthetic cases (modes 0-2, 7) with finite targets: exact position or none; nn = containing pixel; bil = standard bilinear"""
-    if c["mode"] not in (0, 1, 2, 7):
+    if c["mode"] not in (0, 1, 2, 7, 8):
         return
 
     def K(key):
@@ -715,35 +725,40 @@ def direct_oracle(ctx, c, o, label="", oracle="direct"):
     x0, y0 = c["sx"][0], c["sy"][0]
     det = cc * b - e * a
     D = np.array(c["data"]).reshape(nl, np_)
+    eps = 0.0 if c.get("exact") else 1e-9       # exact cases: the hull border itself is decided, positions must be equal
     for k, (tx, ty) in enumerate(zip(c["dx"], c["dy"])):
+        gy, gx = float(o["idx"][1][k]), float(o["idx"][0][k])
         if not (math.isfinite(tx) and math.isfinite(ty)) or abs(tx) > 1e9:
-            if o["idx"][1][k] == o["idx"][1][k]:
+            if gy == gy:
                 ctx.add_failure(K("C09.position.outside_valued"), "direct: non-finite/huge target (%r,%r) gets an index" % (tx, ty), {"oracle": oracle, "case": c})
                 return
             continue
         L = (b * (ty - y0) - e * (tx - x0)) / det
         P = (cc * (tx - x0) - a * (ty - y0)) / det
-        ins = 1e-9 <= L <= nl - 1 - 1e-9 and 1e-9 <= P <= np_ - 1 - 1e-9
-        outs = L < -1e-9 or L > nl - 1 + 1e-9 or P < -1e-9 or P > np_ - 1 + 1e-9
-        gy, gx = o["idx"][1][k], o["idx"][0][k]
-        if ins and not (gy == gy and abs(gy - L) < 1e-9 and abs(gx - P) < 1e-9):
+        ins = eps <= L <= nl - 1 - eps and eps <= P <= np_ - 1 - eps
+        outs = L < -eps or L > nl - 1 + eps or P < -eps or P > np_ - 1 + eps
+        if ins and not (gy == gy and abs(gy - L) <= eps and abs(gx - P) <= eps):
             ctx.add_failure(K("C09.position.inexact" if gy == gy else "C09.position.inside_missing"),
-                            "direct affine case: target at source (%.6f,%.6f) of a %dx%d grid gets index (%r,%r)" % (L, P, nl, np_, gy, gx), {"oracle": oracle, "case": c})
+                            "direct affine case: target at source (row %r, col %r) of a %dx%d grid of centres gets index (%r,%r)" % (L, P, nl, np_, gy, gx),
+                            {"oracle": oracle, "case": c})
             return
         if outs and gy == gy:
-            ctx.add_failure(K("C09.position.outside_valued"), "direct affine case: target at source (%.6f,%.6f) outside the %dx%d grid gets index (%r,%r)"
+            ctx.add_failure(K("C09.position.outside_valued"), "direct affine case: target at source (row %r, col %r) outside the %dx%d grid of centres gets index (%r,%r)"
                             % (L, P, nl, np_, gy, gx), {"oracle": oracle, "case": c})
             return
         if ins:
-            tie = abs(L - math.floor(L) - 0.5) < 1e-9 or abs(P - math.floor(P) - 0.5) < 1e-9
-            vn, vb = o["nn"][k], o["bil"][k]
-            if not tie and vn != D[int(round(L)), int(round(P))]:
-                ctx.add_failure(K("C09.nn_value"), "direct affine case: nn at source (%.6f,%.6f) gives %r, pixel value %r" % (L, P, vn, D[int(round(L)), int(round(P))]),
+            vn, vb = float(o["nn"][k]), float(o["bil"][k])
+            # the pixels whose cell contains the point (two candidates per axis on a tie)
+            rows = {int(math.floor(L + 0.5)), int(math.ceil(L - 0.5))} if abs(L - math.floor(L) - 0.5) <= eps else {int(round(L))}
+            cols = {int(math.floor(P + 0.5)), int(math.ceil(P - 0.5))} if abs(P - math.floor(P) - 0.5) <= eps else {int(round(P))}
+            cands = [float(D[i, j]) for i in rows for j in cols if 0 <= i < nl and 0 <= j < np_]
+            if vn not in cands:
+                ctx.add_failure(K("C09.nn_value"), "direct affine case: nn at source (row %r, col %r) gives %r, value of the containing pixel %r" % (L, P, vn, cands),
                                 {"oracle": oracle, "case": c})
                 return
             eb = float(std_bilinear(D, np.array([L]), np.array([P]))[0])
             if not abs(vb - eb) <= 1e-9 * max(1.0, float(np.max(np.abs(D)))):
-                ctx.add_failure(K("C09.bilinear_value"), "direct affine case: bilinear at source (%.6f,%.6f) gives %r, standard bilinear %r" % (L, P, vb, eb),
+                ctx.add_failure(K("C09.bilinear_value"), "direct affine case: bilinear at source (row %r, col %r) gives %r, standard bilinear %r" % (L, P, vb, eb),
                                 {"oracle": oracle, "case": c})
                 return
 
